@@ -381,11 +381,24 @@ def replay_real(run, case, pctx, name, lhs, rhs, assign):
     fa = {k: float(v) for k, v in assign.items()}
     exact = {k: Fraction(v) for k, v in fa.items()}
     cache = {}
+    f32_only = False
     try:
-        if not all(eval_constraint(c, exact, cache) for c in pctx.assume):
-            return False, {'error': 'point outside the domain after rounding'}
-        if not all(eval_cond(c, pctx.terms, exact, cache) for c in pctx.path['conds']):
-            return False, {'error': 'point leaves the path after rounding'}
+        def admissible(env, cache):
+            return (all(eval_constraint(c, env, cache) for c in pctx.assume),
+                    all(eval_cond(c, pctx.terms, env, cache) for c in pctx.path['conds']))
+        dom, pth = admissible(exact, cache)
+        if not (dom and pth):
+            # the symbolic machine epsilon covers f32 as well: retry the point with the f32 epsilon
+            exact32 = dict(exact)
+            exact32['#EPSILON'] = mpmath.mpf(2) ** -23
+            cache = {}
+            dom32, pth32 = admissible(exact32, cache)
+            if dom32 and pth32:
+                exact = exact32
+                f32_only = True
+            else:
+                return False, {'error': 'point outside the domain after rounding' if not dom
+                               else 'point leaves the path after rounding'}
         want = ir.mp_eval(rhs, exact, cache)
     except (ir.Inconclusive, ZeroDivisionError, ValueError, KeyError) as e:
         return False, {'error': f'oracle evaluation failed: {e!r}'}
@@ -423,7 +436,15 @@ def replay_real(run, case, pctx, name, lhs, rhs, assign):
     scale = max(abs(want), abs(impl_real) if impl_real == impl_real else 0, mpmath.mpf(1e-300))
     diff = abs(mpmath.mpf(got) - want)
     detail['abs_diff'] = mpmath.nstr(diff, 8)
-    ok = diff > mpmath.mpf('1e-7') * scale
+    ok = diff > mpmath.mpf('1e-7') * scale and not f32_only
+    if not ok and got32 is not None and got32 == got32:
+        # the symbolic epsilon covers f32 as well: a witness may only live in the f32 instantiation
+        # (e.g. an argument between the f64 and the f32 machine epsilon)
+        d32 = abs(mpmath.mpf(got32) - want)
+        if d32 > mpmath.mpf('1e-3') * scale:
+            ok = True
+            detail['reproduced_in'] = 'f32'
+            detail['abs_diff_f32'] = mpmath.nstr(d32, 8)
     if impl_real == impl_real:
         ok = ok and abs(impl_real - want) > mpmath.mpf('1e-9') * scale
     return bool(ok), detail
@@ -497,6 +518,7 @@ def decide_path(run, case, pctx, obs, role, vacuity=True, revars=None, split=Tru
     partvars = set(n for n in names if n not in revars)
     # ---- split every obligation into coefficient obligations
     items = []   # (name, full lhs, full rhs, mono|None, l z3, r z3)
+    tol_terms = {}
     for (name, lhs, rhs) in obs:
         done = False
         if split and partvars:
@@ -507,6 +529,8 @@ def decide_path(run, case, pctx, obs, role, vacuity=True, revars=None, split=Tru
                 for m in sorted(set(pl) | set(pr)):
                     cl, cr = pl.get(m, ir.ZERO), pr.get(m, ir.ZERO)
                     items.append((f"{name}@{'*'.join(m) or '1'}", lhs, rhs, m, enc.enc(cl), enc.enc(cr)))
+                    if callable(tol):
+                        tol_terms[len(items) - 1] = enc.enc(tol(cr))
                 if not (set(pl) | set(pr)):
                     items.append((name, lhs, rhs, None, ir.Q(z3.RealVal(0)), ir.Q(z3.RealVal(0))))
                 done = True
@@ -515,6 +539,8 @@ def decide_path(run, case, pctx, obs, role, vacuity=True, revars=None, split=Tru
         if not done:
             l = enc.enc(lhs) if lhs is not None else ir.Q(z3.RealVal(0))
             items.append((name, lhs, rhs, None, l, enc.enc(rhs)))
+            if callable(tol):
+                tol_terms[len(items) - 1] = enc.enc(tol(rhs))
     s = pctx.base_solver()
     run.paths += 1
     res = run.check(s)
@@ -561,7 +587,7 @@ def decide_path(run, case, pctx, obs, role, vacuity=True, revars=None, split=Tru
     did_vac = not vacuity
     nontrivial = False
     reported = set()
-    for (name, lhs, rhs, mono, l, r) in items:
+    for item_idx, (name, lhs, rhs, mono, l, r) in enumerate(items):
         run.obligations += 1
         if l.same(r):
             run.queries += 1
@@ -572,7 +598,7 @@ def decide_path(run, case, pctx, obs, role, vacuity=True, revars=None, split=Tru
         if tol is None:
             s.add(z3.Not(ir.q_eq_normalised(l, r)))
         else:
-            tq = ir.Q(z3.Q(tol.numerator, tol.denominator))
+            tq = tol_terms[item_idx] if callable(tol) else ir.Q(z3.Q(tol.numerator, tol.denominator))
             s.add(z3.Or(ir.q_lt(tq, ir.q_add(l, r, -1)), ir.q_lt(tq, ir.q_add(r, l, -1))))
         res = run.check(s)
         model = s.model() if res == z3.sat else None
